@@ -395,6 +395,9 @@ func defaultAllocateDevices(
 		if !satisfied {
 			continue
 		}
+		if deviceType == schedulingv1alpha1.GPU && !gpuDerivedRequestFits(podRequestPerInstance, nodeDeviceTotal[resourceMinorPair.minor], resourceMinorPair.resources) {
+			continue
+		}
 
 		r := &apiext.DeviceAllocation{
 			Minor:     int32(resourceMinorPair.minor),
@@ -434,6 +437,30 @@ func defaultAllocateDevices(
 		return nil, fwktype.NewStatus(fwktype.Unschedulable, fmt.Sprintf("Insufficient %s devices", deviceType))
 	}
 	return allocations, nil
+}
+
+// gpuDerivedRequestFits reports whether the amount that fillGPUTotalMem will charge in addition to the request
+// (gpu-memory derived from gpu-memory-ratio, or gpu-memory-ratio derived from gpu-memory) is still free on the device.
+// Without it a GPU whose two memory ledgers have drifted apart (byte requests are rounded down to whole percents)
+// is granted although the derived amount exceeds what is left, and the device ends up over-committed.
+func gpuDerivedRequestFits(request, total, free corev1.ResourceList) bool {
+	gpuMem, gpuMemExists := request[apiext.ResourceGPUMemory]
+	gpuMemRatio, gpuMemRatioExists := request[apiext.ResourceGPUMemoryRatio]
+	if gpuMemExists == gpuMemRatioExists {
+		return true // both given or none: nothing is derived
+	}
+	totalMem, ok := total[apiext.ResourceGPUMemory]
+	if !ok || totalMem.IsZero() {
+		return true
+	}
+	if gpuMemExists {
+		derived := memoryBytesToRatio(gpuMem, totalMem)
+		freeRatio, ok := free[apiext.ResourceGPUMemoryRatio]
+		return !ok || derived.Cmp(freeRatio) <= 0
+	}
+	derived := memoryRatioToBytes(gpuMemRatio, totalMem)
+	freeMem, ok := free[apiext.ResourceGPUMemory]
+	return !ok || derived.Cmp(freeMem) <= 0
 }
 
 func allocateVF(vfAllocation *VFAllocation, deviceInfos map[int]*schedulingv1alpha1.DeviceInfo, minor int, vfSelector labels.Selector, designatedVFOfMinor sets.Set[string]) *schedulingv1alpha1.VirtualFunction {
